@@ -478,6 +478,14 @@ def run_e2e(case):
         srv = [t for t in new if t[0] == "send" and t[1] != 0]
         ts = b"".join(bytes.fromhex(t[2]) for t in srv)
         opened = any(t[0] == "open" for t in new)
+        up_connect = None
+        if ts.startswith(b"CONNECT ") and not is_connect:
+            # upstream mode inside a tunnel: the core first asks the upstream proxy for a tunnel of its own
+            up_connect = _parse_head(ts)
+            m2 = len(d.trace)
+            d.data(srv[0][1], b"HTTP/1.1 200 Connection established\r\n\r\n")
+            srv = [t for t in d.trace[m2:] if t[0] == "send" and t[1] != 0]
+            ts = b"".join(bytes.fromhex(t[2]) for t in srv)
         hooks = seen[nseen:]
         o = {"t": "req", "is_connect": is_connect, "hooks": hooks, "to_client": tc[:400].hex(), "to_server": ts[:1200].hex(),
              "opened": opened, "crash": d.crashed[0] if d.crashed else None}
@@ -486,6 +494,7 @@ def run_e2e(case):
         o["challenge"] = sorted({n.lower().decode("latin-1") for n, _ in head[1]} & {"proxy-authenticate", "www-authenticate"}) if head else []
         sh = _parse_head(ts)
         o["fwd"] = _fields_hex(sh[1]) if sh else None
+        o["up_connect"] = _fields_hex(up_connect[1]) if up_connect else None
         out.append(o)
         if is_connect and o["status"] is not None and 200 <= o["status"] < 300:
             tunnelled = True
@@ -730,7 +739,7 @@ def oracle_e2e(case, obs):
             if not forwarded:
                 out.append({"key": _reject_key(st["label"]), "what": f"step {i} ({mode}): proper credentials {st['label']['u']!r}:{st['label']['p']!r} answered {o['status']}"})
             elif o["fwd"] is not None:
-                if _cred_header_left(o["fwd"], is_proxy):
+                if _cred_header_left(o["fwd"], is_proxy) or (o["up_connect"] and _cred_header_left(o["up_connect"], True)):
                     out.append({"key": "credential-header-forwarded", "what": f"step {i}: credential header forwarded upstream"})
                 wire = _others(st["hdrs"], is_proxy) + ([[b"Content-Length".hex(), str(st["body"]).encode().hex()]] if st["body"] and not o["is_connect"] else [])
                 if [h for h in o["fwd"] if bytes.fromhex(h[0]).lower() != b"host"] != [h for h in wire if bytes.fromhex(h[0]).lower() != b"host"]:
